@@ -211,18 +211,22 @@ type LibScenario struct {
 	Tasks   []int    `json:"tasks,omitempty"`   // job indices run concurrently
 	Choices []int    `json:"choices,omitempty"` // scheduler choices; exhausted => lowest runnable
 	Preempt []int    `json:"preempt,omitempty"` // alternative schedule form: run-to-completion with pre-emption at these global yield counts
+	// LazyInit: the expression parser is not initialised up front; every task constructs its
+	// evaluator first (which initialises the parser lazily), as a library user's goroutines would
+	LazyInit bool `json:"lazy_init,omitempty"`
 }
 
 // LibJob is one evaluation through the library API.
 type LibJob struct {
-	API     string `json:"api"` // "stream" | "all" | "string" | "parse"
-	Expr    string `json:"expr"`
-	InFmt   string `json:"in"`  // input format name
-	OutFmt  string `json:"out"` // output format name
-	Input   Bytes  `json:"input"`
-	Files   []File `json:"files,omitempty"` // extra files (for load), written into the sandbox cwd
-	DecSlot int    `json:"dec_slot"`        // which pooled decoder instance of that format (history mode)
-	EncSlot int    `json:"enc_slot"`
-	Chunks  []int  `json:"chunks,omitempty"`
-	ErrAt   int64  `json:"err_at"` // read error offset, <0 none
+	API      string `json:"api"` // "stream" | "all" | "string" | "parse"
+	Expr     string `json:"expr"`
+	InFmt    string `json:"in"`  // input format name
+	OutFmt   string `json:"out"` // output format name
+	Input    Bytes  `json:"input"`
+	Files    []File `json:"files,omitempty"` // extra files (for load), written into the sandbox cwd
+	DecSlot  int    `json:"dec_slot"`        // which pooled decoder instance of that format (history mode)
+	EncSlot  int    `json:"enc_slot"`
+	Chunks   []int  `json:"chunks,omitempty"`
+	ErrAt    int64  `json:"err_at"` // read error offset, <0 none
+	LazyInit bool   `json:"lazy_init,omitempty"`
 }
